@@ -525,6 +525,13 @@ func (p *prog) genGet(head bool) *op {
 		o.eclass = "version-id"
 		o.desc = fmt.Sprintf("%s /%s/%s?versionId=<%s> %v", method, b, k, vs.name, hdr)
 		o.skip = func(p *prog) bool { return p.P.vers[vs.name] == "" || p.D.vers[vs.name] == "" }
+		null := p.r.Intn(3) == 0
+		if null {
+			// the literal id "null": the version written before versioning was enabled (or while it was suspended)
+			o.class, o.eclass = "version-id-null", "version-id-null"
+			o.desc = fmt.Sprintf("%s /%s/%s?versionId=null %v", method, b, k, hdr)
+			o.skip = nil
+		}
 		o.req = func(s *side) *s3c.Req {
 			v := s.vers[vs.name]
 			if s == p.E {
@@ -532,6 +539,9 @@ func (p *prog) genGet(head bool) *op {
 			}
 			if v == "" {
 				v = "no-such-version"
+			}
+			if null {
+				v = "null"
 			}
 			return &s3c.Req{Method: method, Path: s3c.ObjPath(b, k), Query: s3c.Q("versionId", v), Header: append(s3c.H{}, hdr...)}
 		}
@@ -553,6 +563,33 @@ func (p *prog) genDelete() *op {
 		req: objReq("DELETE", b, k, "", nil, nil), onAck: func() { delete(p.m.objs[b], k) }}
 	if p.m.verOn[b] {
 		o.class += "+versioned"
+	}
+	if len(p.m.vslots) > 0 && p.r.Intn(4) == 0 {
+		// delete one version: an id the gateway handed out, or the literal "null"
+		vs := p.m.vslots[p.r.Intn(len(p.m.vslots))]
+		b, k = vs.bucket, vs.key
+		null := p.r.Intn(2) == 0
+		o = &op{kind: "delete", class: "version-id", eclass: "version-id", desc: fmt.Sprintf("DELETE /%s/%s?versionId=<%s>", b, k, vs.name), mut: true, bucket: b, keys: []string{b + "/" + k}, dom: "obj"}
+		if null {
+			o.class, o.eclass = "version-id-null", "version-id-null"
+			o.desc = fmt.Sprintf("DELETE /%s/%s?versionId=null", b, k)
+		} else {
+			o.skip = func(p *prog) bool { return p.P.vers[vs.name] == "" || p.D.vers[vs.name] == "" }
+		}
+		o.req = func(s *side) *s3c.Req {
+			v := s.vers[vs.name]
+			if s == p.E {
+				v = p.P.vers[vs.name]
+			}
+			if v == "" {
+				v = "no-such-version"
+			}
+			if null {
+				v = "null"
+			}
+			return &s3c.Req{Method: "DELETE", Path: s3c.ObjPath(b, k), Query: s3c.Q("versionId", v)}
+		}
+		return o
 	}
 	if p.r.Intn(12) == 0 {
 		o.as = p.pick("alice", "bob")
